@@ -3,6 +3,7 @@
 package operator
 
 import (
+	"reduction.dev/reduction/dkv"
 	"reduction.dev/reduction/proto/workerpb"
 	"reduction.dev/reduction/util/vhook"
 )
@@ -15,4 +16,12 @@ func (o *Operator) verifRetune(req *workerpb.DeployOperatorRequest) {
 		return
 	}
 	o.timerRegistry = NewTimerRegistry(NewTimerStore(o.db, o.keySpace, o.keyGroupRange, t.TimerCacheBytes), req.SourceRunnerIds)
+}
+
+// VerifDB exposes the operator's database to the harness (waiting for background
+// tasks of a killed operator, structural evidence).
+func (o *Operator) VerifDB() *dkv.DB {
+	o.mu.RLock()
+	defer o.mu.RUnlock()
+	return o.db
 }
